@@ -325,7 +325,7 @@ def AndSubstitution(F, k):
         if lit > 0:
             return [[nvar] for nvar in nvars]
         else:
-            return [-nvar for nvar in nvars]
+            return [[-nvar for nvar in nvars]]
 
     newF.add_clauses_from(
         apply_substitution(F, andify))
